@@ -55,7 +55,7 @@ func VerifH_C11_Blocking() {
 	}
 	kind := verifChoice("call", 6)
 	answered := verifChoice("answered", c11Steps(kind)) // exchange packets answered before the cause
-	cause := verifChoice("cause", 6)                    // 0 cancel, 1 deadline, 2 local Close, 3 peer close, 4 malformed packet, 5 Disconnect from another goroutine
+	cause := verifChoice("cause", 7)                    // 0 cancel, 1 deadline, 2 local Close, 3 peer close, 4 malformed packet, 5 Disconnect from another goroutine, 6 the call's own write fails
 	second := -1
 	if kind != c11Connect && verifChoice("two", 2) == 1 {
 		second = c11Sub
@@ -69,6 +69,13 @@ func VerifH_C11_Blocking() {
 	conn.onWrite = func(c *vconn, p []byte) error {
 		d := refDecode(p)
 		var resp []byte
+		if cause == 6 && (kind == c11Connect && first || kind != c11Connect && !first && seen == answered) {
+			// the transport fails while the call writes its packet (the connection is gone)
+			first = false
+			c.eof = true
+			c.signalLocked = true
+			return errVconnWrite
+		}
 		if first {
 			first = false
 			if kind != c11Connect {
@@ -123,7 +130,7 @@ func VerifH_C11_Blocking() {
 	skipFinal := false
 	var err1, err2 error
 	causeApplied := false
-	if cause != 1 {
+	if cause != 1 && cause != 6 {
 		go func() {
 			verifPause()
 			causeApplied = true
@@ -165,7 +172,9 @@ func VerifH_C11_Blocking() {
 			return
 		}
 		verifAssert(err1 != nil, "C11.interrupted_call_reports_error")
-		if cause <= 1 {
+		if cause == 6 {
+			verifReach("write-failed")
+		} else if cause <= 1 {
 			verifAssert(errors.Is(err1, ctx.Err()), "C11.cancelled_context_reported_as_its_error")
 			if second >= 0 && returned2 {
 				verifAssert(errors.Is(err2, ctx.Err()), "C11.cancelled_context_reported_as_its_error")
@@ -190,6 +199,17 @@ func VerifH_C11_Blocking() {
 			return
 		}
 		verifAssert(verifLive() == 0, "C11.nothing_left_running")
+		if d := cli.Done(); d != nil {
+			closed := false
+			select {
+			case <-d:
+				closed = true
+			default:
+			}
+			verifAssert(closed, "C11.done_closed_after_transport_closed")
+		} else {
+			verifAssert(kind != c11Connect, "C11.done_available_after_connect")
+		}
 	})
 	if kind != c11Connect {
 		_, cerr := cli.Connect(context.Background(), "cid")
